@@ -745,7 +745,8 @@ where
     let w = hashbrown::verif::GROUP_WIDTH;
     let (es, _) = hashbrown::verif::table_layout::<(K, ())>();
     let ea = std::mem::align_of::<(K, ())>();
-    tr.reset("set", name, w, es, ea, std::mem::needs_drop::<K>(), K::TRACKED, nt, "lawful", seed);
+    let faulty = b["ops"].as_array().map_or(false, |a| a.iter().any(|o| o.get("pa").is_some()));
+    tr.reset("set", name, w, es, ea, std::mem::needs_drop::<K>(), K::TRACKED, nt, if faulty { "fault" } else { "lawful" }, seed);
     let mut drv: SetDrv<K> = SetDrv::new(nt, w);
     for t in 1..=nt {
         let mut ev = Event::new("new", t);
@@ -753,7 +754,12 @@ where
         drv.exec(ev, tr);
     }
     for o in b["ops"].as_array().unwrap() {
-        drv.exec(ev_from_json(o), tr);
+        let mut ev = ev_from_json(o);
+        if let Some(pa) = o.get("pa").and_then(|x| x.as_u64()) {
+            ev.fa = "hash".to_string();
+            ev.fk = pa as i64;
+        }
+        drv.exec(ev, tr);
     }
     for t in 1..=nt {
         drv.exec(Event::new("drop", t), tr);
@@ -769,13 +775,19 @@ fn replay_table<E: ElemT>(b: &serde_json::Value, name: &str, seed: u64, tr: &mut
     let w = hashbrown::verif::GROUP_WIDTH;
     let (es, _) = hashbrown::verif::table_layout::<E>();
     let ea = std::mem::align_of::<E>();
-    tr.reset("table", name, w, es, ea, std::mem::needs_drop::<E>(), E::TRACKED, nt, "lawful", seed);
+    let faulty = b["ops"].as_array().map_or(false, |a| a.iter().any(|o| o.get("pa").is_some()));
+    tr.reset("table", name, w, es, ea, std::mem::needs_drop::<E>(), E::TRACKED, nt, if faulty { "fault" } else { "lawful" }, seed);
     let mut drv: TableDrv<E> = TableDrv::new(nt, w);
     for t in 1..=nt {
         drv.exec(Event::new("new", t), tr);
     }
     for o in b["ops"].as_array().unwrap() {
-        drv.exec(ev_from_json(o), tr);
+        let mut ev = ev_from_json(o);
+        if let Some(pa) = o.get("pa").and_then(|x| x.as_u64()) {
+            ev.fa = "hash".to_string();
+            ev.fk = pa as i64;
+        }
+        drv.exec(ev, tr);
     }
     for t in 1..=nt {
         drv.exec(Event::new("drop", t), tr);
